@@ -35,7 +35,7 @@ MANDATORY = ["refused_before_first_step", "base_forward", "base_reversed", "base
 ASSUMPTIONS = ["single faults (no combinations)"]
 TIMEOUT = {"quick": 1200, "thorough": 3500}
 
-FAULTS = ["forcing_ends_early", "forcing_starts_late", "frames_unsorted_in_file", "frames_unsorted_across_files", "frame_duplicated_across_files",
+FAULTS = ["forcing_ends_early", "forcing_starts_late", "forcing_starts_late_substep", "forcing_ends_early_substep", "frames_unsorted_in_file", "frames_unsorted_across_files", "frame_duplicated_across_files",
           "missing_start", "missing_stop", "missing_dt", "stop_on_wrong_side", "releases_all_before_start", "releases_all_at_stop", "releases_all_after_stop",
           "release_without_position", "missing_config_file", "missing_grid_file", "missing_forcing_file", "missing_release_file",
           "missing_tracker_section", "missing_time_section", "missing_release_section", "missing_output_section", "missing_forcing_section",
@@ -96,6 +96,12 @@ def base_files(b: dict[str, Any], wd: Path, fault: str | None):
     elif fault == "forcing_starts_late":
         fr = [f for f in fr if f > 0]
         files = [len(fr)]
+    elif fault == "forcing_starts_late_substep":  # first frame a fraction of a step inside the window (off the time grid)
+        fr = [1.0 / 3.0] + [f for f in fr if f > 0]
+        files = [len(fr)]
+    elif fault == "forcing_ends_early_substep":  # last frame a fraction of a step before the end of the window
+        fr = [f for f in fr if f < ns - 1] + [ns - 1.0 / 3.0]
+        files = [len(fr)]
     phys = sorted(sgn * f for f in fr)  # physical positions, increasing in time
     if rev:
         files = list(reversed(files))
@@ -110,7 +116,7 @@ def base_files(b: dict[str, Any], wd: Path, fault: str | None):
         k = len(phys) // 2
         phys = phys[:k] + [phys[k - 1]] + phys[k:]
         files = [k, len(phys) - k]
-    w = dict(imax=16, jmax=12, N=2, t0=start, frames=[p * dt for p in phys], files=files, vel=dict(kind="const", u=0.05, v=0.02))
+    w = dict(imax=16, jmax=12, N=2, t0=start, frames=[int(round(p * dt)) for p in phys], files=files, vel=dict(kind="const", u=0.05, v=0.02))
     steps = list(b["rel_steps"])
     if fault == "releases_all_before_start":
         steps = [-3, -1]
@@ -171,7 +177,8 @@ def one_run(b: dict[str, Any], fault: str | None, wd: Path, sub: bool):
         cf = wd / "no_such_config.yaml"
     # --- verify the fault is really in what ladim will read
     present = True
-    if fault in ("frames_unsorted_in_file", "frames_unsorted_across_files", "frame_duplicated_across_files", "forcing_ends_early", "forcing_starts_late"):
+    if fault in ("frames_unsorted_in_file", "frames_unsorted_across_files", "frame_duplicated_across_files", "forcing_ends_early", "forcing_starts_late",
+                 "forcing_starts_late_substep", "forcing_ends_early_substep"):
         ts = []
         for fn in world["files"]:
             with Dataset(fn) as nc:
@@ -180,6 +187,14 @@ def one_run(b: dict[str, Any], fault: str | None, wd: Path, sub: bool):
             present = any(b2 < a for a, b2 in zip(ts, ts[1:]))
         elif fault == "frame_duplicated_across_files":
             present = any(b2 == a for a, b2 in zip(ts, ts[1:]))
+        elif fault.endswith("_substep"):
+            # the window [min, max] of the run in seconds since 1970; the forcing must miss one end by less than one step
+            import numpy as _np  # noqa: PLC0415
+
+            t_a = (_np.datetime64(run["start"], "s") - _np.datetime64("1970-01-01T00:00:00", "s")) / _np.timedelta64(1, "s")
+            t_b = (_np.datetime64(run["stop"], "s") - _np.datetime64("1970-01-01T00:00:00", "s")) / _np.timedelta64(1, "s")
+            lo, hi = min(t_a, t_b), max(t_a, t_b)
+            present = (0 < min(ts) - lo < b["dt"]) or (0 < hi - max(ts) < b["dt"])
     with Hooks() as hk:
         hk.wrap(Model, "update", None, None)
         hk.wrap(Output, "write", None, None)
